@@ -5,6 +5,7 @@
 import Valida.Path
 import ValidaSpec.Walk
 import ValidaProofs.Lemmas.Basic
+import ValidaProofs.Lemmas.DataGuard
 import ValidaProofs.C02
 namespace ValidaProofs.C03
 open Valida ValidaGen ValidaSpec
@@ -61,11 +62,10 @@ theorem zip_map_fst_snd' {α β : Type} (l : List (α × β)) : (l.map (·.1)).z
 /-! ### failures of `Part.filter` -/
 
 theorem ofPy_error (node : PyVal) (e : Exc) (h : DataV.ofPy node = .error e) : e = .typeError := by
-  unfold DataV.ofPy at h
-  split at h
-  · split at h <;> simp at h; exact h.symm
-  · split at h <;> simp at h; exact h.symm
-  · simp at h; exact h.symm
+  cases node with
+  | list xs => rw [DataV.ofPy_list] at h; split at h <;> simp at h; exact h.symm
+  | dict kvs => rw [DataV.ofPy_dict] at h; split at h <;> simp at h; exact h.symm
+  | _ => simp at h; exact h.symm
 
 theorem mkBin_error {α : Type} (op : BinOp) (a b : Cond α) (e : Exc) (h : Cond.mkBin op a b = .error e) :
     e = .typeError := by
@@ -239,7 +239,7 @@ theorem stepNode_map_list (p : Part) (xs : List PyVal) (hk : p.kind = .map) : st
   rw [Part.filter_eq]
   cases xs with
   | nil => rfl
-  | cons x xs => simp [DataV.ofPy, hk]
+  | cons x xs => simp [DataV.ofPy_list, hk]
 
 theorem stepNode_list_dict (p : Part) (kvs : List (PyVal × PyVal)) (hk : p.kind = .list) :
     stepNode p (.dict kvs) = .ok [] := by
@@ -247,21 +247,21 @@ theorem stepNode_list_dict (p : Part) (kvs : List (PyVal × PyVal)) (hk : p.kind
   rw [Part.filter_eq]
   cases kvs with
   | nil => rfl
-  | cons x xs => simp [DataV.ofPy, hk]
+  | cons x xs => simp [DataV.ofPy_dict, hk]
 
 /-! ### matched children are items of the node -/
 
 theorem ofPy_list_ok (xs : List PyVal) (d : DataV) (h : DataV.ofPy (.list xs) = .ok d) :
     d = ⟨true, rangeVals xs.length, xs⟩ := by
   cases xs with
-  | nil => simp [DataV.ofPy] at h
-  | cons x xs => simp [DataV.ofPy] at h; exact h.symm
+  | nil => simp [DataV.ofPy_list] at h
+  | cons x xs => simp [DataV.ofPy_list] at h; exact h.symm
 
 theorem ofPy_dict_ok (kvs : List (PyVal × PyVal)) (d : DataV) (h : DataV.ofPy (.dict kvs) = .ok d) :
     d = ⟨false, kvs.map (·.1), kvs.map (·.2)⟩ := by
   cases kvs with
-  | nil => simp [DataV.ofPy] at h
-  | cons x xs => simp [DataV.ofPy] at h; exact h.symm
+  | nil => simp [DataV.ofPy_dict] at h
+  | cons x xs => simp [DataV.ofPy_dict] at h; exact h.symm
 
 theorem stepNode_items (p : Part) (node : PyVal) (kvs : List (PyVal × PyVal)) (h : stepNode p node = .ok kvs) :
     (∀ xs, node = .list xs → kvs.Sublist ((rangeVals xs.length).zip xs)) ∧
